@@ -82,7 +82,7 @@ class MDCPDPAdapter(RoutingAdapter):
     def instances(self, env, variant, rng, tier):
         nl, nd = variant["num_loc"], variant["num_depot"]
         out = []
-        k = 2 if tier == "quick" else 6
+        k = 2 if tier == "quick" else 3
         torch.manual_seed(rng.randrange(1 << 30))
         td = env.generator(batch_size=[k])
         if variant["capacity_columns"] == "per_depot":
@@ -160,7 +160,7 @@ class MDCPDPAdapter(RoutingAdapter):
         return items
 
     def choosers(self, tier):
-        return ["uniform", "uniform", "depot_first", "depot_last", "low", "high"] if tier == "thorough" else \
+        return ["uniform", "uniform", "depot_first", "depot_last", "high"] if tier == "thorough" else \
                ["uniform", "depot_first", "high"]
 
     # ---------------------------------------------------------------- Coq encoding
@@ -450,7 +450,7 @@ class MDCPDPAdapter(RoutingAdapter):
             for k in sorted(by_variant):
                 if len(by_variant[k]) > depth:
                     order.append(by_variant[k][depth])
-            depth += 3          # items of one instance are consecutive (one per chooser): skip to the next instance
+            depth += len(self.choosers(tier))     # items of one instance are consecutive (one per chooser): next instance
         return super().extra_c05(ctx, tier, order)
 
     # ---------------------------------------------------------------- signatures
